@@ -1,5 +1,7 @@
 import Driver.Util
+import Driver.Viso
 import Ps3.Model.Conn
+import Ps3.Model.FSWrap
 namespace Driver
 open Ps3 Ps3.Conn Ps3.Proto
 
@@ -59,6 +61,17 @@ def runReqs (cfg : Cfg) : World → State → List Bytes → Nat → List String
     | _ => (w, (s!"r{i}=X:-" :: acc).reverse, true)
 
 def noWrap : World → Path → Option (Option StaticView) := fun _ _ => none
+
+/-- the wrapper selection of FS.OpenFile with the comparison mask applied to generated images
+    (volume timestamps, PS3 filler: the harness masks the same positions on the implementation side) -/
+def fullWrap : World → Path → Option (Option StaticView) := fun w p =>
+  match FSWrap.wrap ⟨0, 0⟩ [] w p with
+  | some (some v) =>
+    if FSWrap.isVirtualPath p then
+      let ps3 := FSWrap.isPs3Path p
+      some (some { v with read := fun off n => maskImage (v.read off n) off ps3 })
+    else some (some v)
+  | r => r
 
 def connWith (wrap : World → Path → Option (Option StaticView)) (args : List String) : String :=
   match args with
